@@ -33,6 +33,7 @@ def parseMOp? (ws : List String) : Option MOp :=
   match ws with
   | ["spawn"] => some .spawn
   | ["spawnl", p] => p.toNat?.map .spawnl
+  | ["spawnlt", p, f] => p.toNat?.map (fun p => .spawnlt p (f == "fail"))
   | ["link", c, p] => do pure (.link (← c.toNat?) (← p.toNat?))
   | ["unlink", c, p] => do pure (.unlink (← c.toNat?) (← p.toNat?))
   | ["block", a] => a.toNat?.map .block
@@ -91,6 +92,8 @@ def oracle (prev cur : State) (mop : MOp) (r : String) : List String :=
         else if r == "false" then
           (if sameLinks prev cur then [] else ["C05.link-false-changed"])
         else ["C05.link-result"]
+      | .spawnlt _ _ =>
+        if r == "ok" || r == "err" then [] else ["C05.spawn-result"]
       | .spawnl p =>
         let c := prev.n
         if r == "ok" then
